@@ -167,8 +167,23 @@ where
     check_response_body(&http_response)?;
 
     let response_body = http_response.body().as_slice();
-    serde_path_to_error::deserialize(&mut serde_json::Deserializer::from_slice(response_body))
-        .map_err(|e| RequestTokenError::Parse(e, response_body.to_vec()))
+    parse_json_body(response_body).map_err(|e| RequestTokenError::Parse(e, response_body.to_vec()))
+}
+
+/// Deserializes a response body that must consist of exactly one JSON document (optionally
+/// surrounded by whitespace). Trailing data after the document is a parse error.
+fn parse_json_body<T>(
+    body: &[u8],
+) -> Result<T, serde_path_to_error::Error<serde_json::error::Error>>
+where
+    T: DeserializeOwned,
+{
+    let mut deserializer = serde_json::Deserializer::from_slice(body);
+    let value = serde_path_to_error::deserialize(&mut deserializer)?;
+    deserializer.end().map_err(|err| {
+        serde_path_to_error::Error::new(serde_path_to_error::Track::new().path(), err)
+    })?;
+    Ok(value)
 }
 
 pub(crate) fn endpoint_response_status_only<RE, TE>(
@@ -195,9 +210,7 @@ where
                 "server returned empty error response".to_string(),
             ))
         } else {
-            let error = match serde_path_to_error::deserialize::<_, TE>(
-                &mut serde_json::Deserializer::from_slice(reason),
-            ) {
+            let error = match parse_json_body::<TE>(reason) {
                 Ok(error) => RequestTokenError::ServerResponse(error),
                 Err(error) => RequestTokenError::Parse(error, reason.to_vec()),
             };
